@@ -154,7 +154,7 @@ def worker(sh):
 
 def run(ctx):
     O.selftest(random.Random(ctx.seed), heavy=True)
-    cfgs = ['prod', 'san', 'p32'] if ctx.quick else ['prod', 'san', 'p64', 'p32', 'x86base']
+    cfgs = ['prod', 'san', 'p32'] if ctx.quick else ['prod', 'san', 'p64', 'p32', 'x86base', 'p64-O0', 'gcc-p64']
     specs = {c: (c if c != 'x86base' else 'prod', 'opdrv.cpp', ['--x86base'] if c == 'x86base' else []) for c in cfgs}
     exes = session.build_exes(specs)
     # generator constants first (single process)
